@@ -42,6 +42,8 @@ def run(tier, seed):
             top = top[: len(top) // 2] + [pp.nl(), pp.inc("inc.svh"), pp.nl()] + top[len(top) // 2:]
         files["top.sv"] = gen.finish_file(top)
         cases.append({"id": nid, "files": files, "top": "top.sv"})
+        if rng.random() < 0.15:
+            cases[-1]["nl"] = "\r\n"          # CRLF line ends (a // comment ends before the CR)
         by_id[str(nid)] = {"kind": "seeded"}
     vlib.log("C18: %d cases" % len(cases))
 
